@@ -7,13 +7,24 @@ MACROS = {
     'table_ok': (['b'],
                  'all(b.branch_value_table[k] in b._jump_targets for k in b.branch_value_table)'
                  ' and all(any(b.branch_value_table[k] == t for k in b.branch_value_table) for t in b._jump_targets)'),
-    # the value table of nb is the one of ob renamed position-wise
+    # the value table of nb follows the re-targeting of ob: same keys; with equal lengths each entry follows its
+    # target's position; otherwise (targets merged into one new successor) entries of kept targets are unchanged
+    # and entries of removed targets name the new successor
     'renamed_table': (['ob', 'nb'],
                       'set(nb.branch_value_table) == set(ob.branch_value_table)'
-                      ' and len(nb._jump_targets) == len(ob._jump_targets)'
-                      ' and all(all(implies(ob.branch_value_table[k] == ob._jump_targets[i],'
+                      ' and implies(len(nb._jump_targets) == len(ob._jump_targets),'
+                      ' all(all(implies(ob.branch_value_table[k] == ob._jump_targets[i],'
                       ' nb.branch_value_table[k] == nb._jump_targets[i])'
-                      ' for i in range(len(ob._jump_targets))) for k in ob.branch_value_table)'),
+                      ' for i in range(len(ob._jump_targets))) for k in ob.branch_value_table))'
+                      ' and implies(len(nb._jump_targets) != len(ob._jump_targets),'
+                      ' all((nb.branch_value_table[k] == ob.branch_value_table[k]) if ob.branch_value_table[k] in nb._jump_targets'
+                      ' else (nb.branch_value_table[k] in nb._jump_targets and nb.branch_value_table[k] not in ob._jump_targets)'
+                      ' for k in ob.branch_value_table))'),
+    # shape of a re-targeting the value table can follow: same length, or exactly one new successor replacing
+    # at least one removed target
+    'retarget_shape': (['oj', 'nj'],
+                       'len(nj) == len(oj) or (any(t not in oj for t in nj) and any(t not in nj for t in oj)'
+                       ' and all(implies(a not in oj and b not in oj, a == b) for a in nj for b in nj))'),
     # ---- insert_block: nj is oj with the arcs into S re-routed through `new`
     'rr_sub': (['oj', 'nj', 'new', 'S'], 'all((t in oj and t not in S) or t == new for t in nj)'),
     'rr_kept': (['oj', 'nj', 'new', 'S'], 'all(t in nj for t in oj if t not in S)'),
@@ -30,7 +41,9 @@ MACROS = {
     'ib_plain': (['ob', 'nb'], 'implies(not isinstance(ob, SyntheticBranch), nb == replace(ob, _jump_targets=nb._jump_targets))'),
     'ib_branch': (['ob', 'nb'],
                   'implies(isinstance(ob, SyntheticBranch), nb == replace(ob, _jump_targets=nb._jump_targets,'
-                  ' branch_value_table=nb.branch_value_table) and renamed_table(ob, nb) and table_ok(nb))'),
+                  ' branch_value_table=nb.branch_value_table))'),
+    'ib_branch_renamed': (['ob', 'nb'], 'implies(isinstance(ob, SyntheticBranch), renamed_table(ob, nb))'),
+    'ib_branch_table': (['ob', 'nb'], 'implies(isinstance(ob, SyntheticBranch), table_ok(nb))'),
     'rr_pos': (['oj', 'nj', 'new', 'S'],
                'implies(at_most_one_in(oj, S), len(nj) == len(oj)'
                ' and all(nj[i] == (new if oj[i] in S else oj[i]) for i in range(len(oj))))'),
